@@ -223,14 +223,14 @@ def reach_rules(run, F, E):
 
 
 def run(run):
-    flow_rules.flow_obligations(run, {'C03.a', 'C03.b', 'C03.c', 'C02.d'})
+    run.guard('flow obligations', flow_rules.flow_obligations, run, {'C03.a', 'C03.b', 'C03.c', 'C02.d'})
     for c in facts.configs(run.tier):
         for v in facts.variants(run.tier):
             F = facts.load('w_core', c, v)
             E = effects.Effects(F)
             run.count('fact units')
-            wrappers(run, F, E)
-            reach_rules(run, F, E)
+            run.guard('wrappers', wrappers, run, F, E)
+            run.guard('reach rules', reach_rules, run, F, E)
             facts.drop(F)
             cfgmod.clear_cache()
     run.floor('C03.a', 100)
